@@ -111,8 +111,61 @@ NATIVES = {
 }
 
 
-def programs(tier):
+# ------------------------------------------------------------------ state held across a suspension
+# holder positions (where a fresh, otherwise unreferenced object lives while the VM is suspended) x suspension kinds.
+# @S@ = suspending statement, @SV@ = suspending expression, @ASYNC@/@AWAIT@ = "async "/"await " for the await kinds.
+SUSP_PRE = "import { order } from \"tsrun:host\";\n" + PRE + "function sus(){ return order('x'); }\nfunction sus2(){ var t = A(7); var r = sus(); return [t.w, r].join(); }\nasync function asus(){ return await order('x'); }\nasync function asus2(){ const t = A(7); const r = await asus(); return [t.w, r].join(); }\n"
+SUSP_KINDS = {
+    "order-same-frame": ("order('x');", "order('x')", False),
+    "order-in-callee": ("sus();", "sus()", False),
+    "order-two-frames-down": ("sus2();", "sus2()", False),
+    "await-order": ("await order('x');", "(await order('x'))", True),
+    "await-async-callee": ("await asus();", "(await asus())", True),
+    "await-two-frames-down": ("await asus2();", "(await asus2())", True),
+}
+HOLDERS = {
+    "local": "const o = A(1); @S@ return o;",
+    "pending-return-in-finally": "let t = 0; try { return A(1); } finally { t = t + 1; @S@ }",
+    "pending-throw-in-finally": "@ASYNC@function inner(){ let t = 0; try { throw A(1); } finally { t = t + 1; @S@ } } try { @AWAIT@inner(); } catch (e) { return e; }",
+    "pending-return-finally-nested": "let t = 0; try { try { return A(1); } finally { t = t + 1; @S@ } } finally { t = t + 2; @S@ }",
+    "caught-exception": "try { throw A(1); } catch (e) { @S@ return e; }",
+    "arguments": "@ASYNC@function g(x, y){ @S@ return [x, y]; } return @AWAIT@g(A(1), A(2));",
+    "this-object": "const obj = { o: A(1), @ASYNC@m(){ @S@ return this.o; } }; return @AWAIT@obj.m();",
+    "closure-env": "const mk2 = () => { const o = A(1); return @ASYNC@() => { @S@ return o; }; }; return @AWAIT@mk2()();",
+    "array-literal-partial": "return [A(1), @SV@, A(2)];",
+    "object-literal-partial": "return { a: A(1), b: @SV@, c: A(2) };",
+    "call-arguments-partial": "function f3(a, b, c){ return [a, b, c]; } return f3(A(1), @SV@, A(2));",
+    "template-partial": "return `${J(A(1))}|${@SV@}|${J(A(2))}`;",
+    "binary-partial": "return J(A(1)) + @SV@ + J(A(2));",
+    "for-of-iterator": "const out = []; for (const x of [A(1), A(2)]) { @S@ out.push(x); } return out;",
+    "let-per-iteration": "const out = []; for (let i = 0; i < 2; i++) { let o = A(i); @S@ out.push(o); } return out;",
+    "generator-state": "function* g(){ const o = A(1); yield A(2); yield o; } const it = g(); const a = it.next().value; @S@ const b = it.next().value; return [a, b];",
+    "map-set-entries": "const m = new Map([[1, A(1)]]); const st = new Set([A(2)]); @S@ return [[...m.values()], [...st]];",
+    "class-field": "class C { f = A(1); @ASYNC@m(){ @S@ return this.f; } } return @AWAIT@new C().m();",
+    "spread-partial": "const src = { a: A(1) }; const dst = { ...src, b: @SV@ }; return dst;",
+    "destructuring-default": "const [p, q = A(2)] = [A(1)]; @S@ return [p, q];",
+    "caller-frames": "@ASYNC@function lvl2(v){ const keep = A(3); @S@ return [v, keep]; } @ASYNC@function lvl1(){ const mine = A(1); const r = @AWAIT@lvl2(A(2)); return [mine, r]; } return @AWAIT@lvl1();",
+    "switch-block-let": "switch (1) { case 1: { let o = A(1); @S@ return o; } }",
+    "labelled-loop-temp": "let keep; outer: for (let i = 0; i < 2; i++) { for (let j = 0; j < 2; j++) { const o = A(i * 2 + j); @S@ if (j == 1) { keep = o; continue outer; } } } return keep;",
+    "resolved-promise-value": "const p = Promise.resolve(A(1)); @S@ return @AWAIT@p;",
+    "pending-completion-and-temp": "let t = 0; try { return [A(1), A(2)]; } finally { t = t + 1; const tmp = A(3); @S@ t = t + tmp.w; }",
+}
+
+
+def susp_programs():
     out = []
+    for hn, body in HOLDERS.items():
+        for kn, (st, sv, is_async) in SUSP_KINDS.items():
+            if hn == "resolved-promise-value" and not is_async:
+                continue
+            b = body.replace("@S@", st).replace("@SV@", sv).replace("@ASYNC@", "async " if is_async else "").replace("@AWAIT@", "await " if is_async else "")
+            src = SUSP_PRE + ("async function H(){ %s }\nJ(await H())" if is_async else "function H(){ %s }\nJ(H())") % b
+            out.append({"id": "suspend|%s|%s" % (hn, kn), "src": src})
+    return out
+
+
+def programs(tier):
+    out = susp_programs()
     for name, expr in NATIVES.items():
         out.append({"id": "native|" + name, "src": PRE + expr})
         # the same expression executed inside a callee and inside a loop (different live temporaries)
